@@ -116,6 +116,27 @@ func runEnc(c encCase) harness.Result {
 			return harness.Fail("frame is %d bytes, maximum ADU is %d", len(got), spec.MaxADU(c.Framing))
 		}
 	}
+	// (d) the frame handed out belongs to the caller: building and serialising another request of the same kind (and serialising this
+	// one again) must not change the bytes already returned (a batch of frames prepared before sending, a queued frame)
+	if known == "" {
+		other := r
+		other.Tx, other.Unit, other.Addr = r.Tx^0x5A5A, r.Unit^0xFF, r.Addr^0x0F0F
+		for i := range other.Payload {
+			other.Payload = append([]byte(nil), r.Payload...)
+			other.Payload[i] ^= 0xFF
+			break
+		}
+		if q2, err := cat.NewRequest(c.Framing, other); err == nil {
+			_ = q2.Bytes()
+		}
+		if !bytes.Equal(got, want) {
+			return harness.Fail("the frame returned by Bytes() changed after another request was serialised:\n  now  %x\n  was  %x", got, want)
+		}
+		again := q.Bytes()
+		if !bytes.Equal(again, want) {
+			return harness.Fail("serialising the same request a second time gives %x, the first time %x", again, want)
+		}
+	}
 	if known != "" {
 		return harness.Result{Excluded: known, Labels: append(labels, "known:"+known)}
 	}
